@@ -128,11 +128,40 @@ def install(sim_time=True, gran="opcode"):
     _patch(rfg, "threading", prims.THREADING)
     _patch(spo, "threading", prims.THREADING)
     _patch(_plan, "RLock", prims.RLock)
+    _patch_discovered_seams()
     if sim_time:
         _patch(spo, "time", prims.TIME)
         _patch(cpo, "dt", prims.DT)
         _patch(hpo, "dt", prims.DT)
         _patch(ipo, "dt", prims.DT)
+
+
+def _patch_discovered_seams():
+    """Any other uberjob module that (in the tree under test) refers to the `threading` module, imports names from
+    it, or holds lock objects created at import time (module globals, class attributes) gets the simulated
+    counterparts too - a real lock inside the simulation would block the one running thread for good."""
+    import threading as real
+
+    lock_types = (type(real.Lock()), type(real.RLock()))
+    names = ("Lock", "RLock", "Condition", "Event", "Thread")
+    done = {(id(m), a) for m, a, _ in _INSTALLED}
+    for name, mod in sorted(sys.modules.items()):
+        if mod is None or not (name == "uberjob" or name.startswith("uberjob.")):
+            continue
+        d = vars(mod)
+        for attr, val in sorted(d.items()):
+            if (id(mod), attr) in done:
+                continue
+            if val is real:
+                _patch(mod, attr, prims.THREADING)
+            elif attr in names and val is getattr(real, attr):
+                _patch(mod, attr, getattr(prims, attr))
+            elif isinstance(val, lock_types):
+                _patch(mod, attr, prims.RLock() if isinstance(val, lock_types[1]) else prims.Lock())
+            elif isinstance(val, type) and getattr(val, "__module__", None) == name:
+                for cattr, cval in sorted(vars(val).items()):
+                    if isinstance(cval, lock_types):
+                        _patch(val, cattr, prims.RLock() if isinstance(cval, lock_types[1]) else prims.Lock())
 
 
 def uninstall():
